@@ -41,7 +41,8 @@ func SplitOnUniqueMaterials(m modeling.Mesh) []modeling.Mesh {
 
 	orinalIndices := m.Indices()
 	for triStart := 0; triStart < orinalIndices.Len(); triStart += 3 {
-		for originalMaterials[curMatIndex].PrimitiveCount+trisFromOtherMats <= triStart/3 {
+		// Triangles beyond what the material ranges cover stay with the last material
+		for curMatIndex < len(originalMaterials)-1 && originalMaterials[curMatIndex].PrimitiveCount+trisFromOtherMats <= triStart/3 {
 			trisFromOtherMats += originalMaterials[curMatIndex].PrimitiveCount
 			curMatIndex++
 			if _, ok := workingMeshes[originalMaterials[curMatIndex].Material]; !ok {
